@@ -51,6 +51,27 @@ Definition write_frame (payload : list N) : res (list N) :=
   if N.ltb size_limit (N.of_nat (length payload)) then Err
   else Ok (be_enc4 (N.of_nat (length payload)) ++ payload).
 
+(* the write loop of writeTo over a transport that takes at most lims[k] bytes on the k-th call (a
+   short write); a limit of 0 is a transport that makes no progress, which net.Conn never does without
+   an error.  Fuel = the number of Write calls allowed; returns what reached the wire *)
+Fixpoint write_loop (fuel : nat) (buf : list N) (lims : list nat) : list N :=
+  match fuel with
+  | O => []
+  | S f =>
+    match buf with
+    | [] => []
+    | _ =>
+      let k := match lims with [] => length buf | l :: _ => Nat.min l (length buf) end in
+      firstn k buf ++ write_loop f (skipn k buf) (tl lims)
+    end
+  end.
+
+Definition write_frame_short (payload : list N) (lims : list nat) : res (list N) :=
+  match write_frame payload with
+  | Ok b => Ok (write_loop (length b) b lims)
+  | r => r
+  end.
+
 (* read up to k frames, stopping at the first error *)
 Fixpoint read_frames (k : nat) (c : conn) : list (res (list N)) * conn :=
   match k with
@@ -72,5 +93,7 @@ Definition entry_framing (op : Z) (args : list val) : val :=
       VL [VL (map (res_val VB) rs); VZ (Z.of_nat (length (concat c')))]
   | 2%Z, [VB payload] =>                 (* writeTo *)
       res_val VB (write_frame payload)
+  | 3%Z, [VB payload; VL lims] =>        (* writeTo over a transport with short writes *)
+      res_val VB (write_frame_short payload (map (fun v => match v with VZ z => Z.to_nat z | _ => 1%nat end) lims))
   | _, _ => VErr
   end.
